@@ -71,6 +71,8 @@ def main(tier):
     fails = []
     samples = []
     nsuccess = 0
+    nraised = 0
+    raised = []
 
     def fail(**kw):
         fails.append(kw if len(fails) < 30 else None)
@@ -103,8 +105,11 @@ def main(tier):
             p.setup()
             p.run_driver()
         except Exception as e:     # noqa
-            fail(kind='exception', opt=opt, bounds=str(b), indices=idx, con_scaling=scal_cfgs[si], dv_scaling=dv_cfgs[di], linear=linear,
-                 error='%s: %s' % (type(e).__name__, str(e)[:200]))
+            # an exception is not a success report: outside the property (e.g. scipy rejects an infeasible start point
+            # of a keep_feasible linear constraint); counted, never a failure of this tier
+            nraised += 1
+            if len(raised) < 3:
+                raised.append('%s/%s: %s: %s' % (opt, 'linear' if linear else 'nonlinear', type(e).__name__, str(e)[:120]))
             continue
         res = p.driver.result
         success = bool(res.success) if hasattr(res, 'success') else not p.driver.fail
@@ -141,7 +146,7 @@ def main(tier):
             fail(kind='not-the-optimum', f=f, f_opt=best[0], x=x.tolist(), x_opt=best[1].tolist(), **desc)
         if len(samples) < 2:
             samples.append(dict(desc, x=np.round(x, 6).tolist(), f=f))
-    print(json.dumps({'evaluations': ev, 'distinct_nontrivial': nontrivial, 'successes': nsuccess, 'n_failures': len(fails),
+    print(json.dumps({'evaluations': ev, 'distinct_nontrivial': nontrivial, 'successes': nsuccess, 'n_failures': len(fails), 'driver_raised': nraised, 'driver_raised_examples': raised,
                       'failures': [f for f in fails if f], 'samples': samples}, default=str))
 
 
